@@ -113,6 +113,10 @@ func TestC02Cycle(t *testing.T) {
 				if r.Intn(8) == 0 {
 					cl = append(cl, []byte("garbage"))
 				}
+				// repeated entries: the stored list (keyed by query id) is then shorter than the request
+				for len(cl) > 0 && r.Intn(3) == 0 {
+					cl = append(cl, cl[r.Intn(len(cl))])
+				}
 				res := w.deliver("UpdateCyclelist", -3, nil, func(ctx sdk.Context) error {
 					_, err := w.oracleMS.UpdateCyclelist(ctx, &oracletypes.MsgUpdateCyclelist{Authority: w.authority, Cyclelist: cl})
 					return err
